@@ -7,6 +7,8 @@ mod util;
 mod wire;
 mod gen;
 mod gen_sigma;
+mod gen_enc;
+mod enc;
 mod sigma;
 
 use std::io::{BufRead, Write};
@@ -19,6 +21,13 @@ pub fn exec(op: &str, args: &[&str]) -> String {
         "new" => sigma::op_new(args),
         "prove" => sigma::op_prove(args),
         "mprove" => sigma::op_mprove(args),
+        "decode" => enc::op_decode(args),
+        "extract" => enc::op_extract(args),
+        "fromstr" => enc::op_fromstr(args),
+        "tostr" => enc::op_tostr(args),
+        "json" => enc::op_json(args),
+        "tojson" => enc::op_tojson(args),
+        "elg" => enc::op_elg(args),
         _ => "bad-op".to_string(),
     }
 }
